@@ -2,6 +2,13 @@
 
 package tubes
 
+import (
+	"io"
+	"time"
+
+	"github.com/sirupsen/logrus"
+)
+
 // Accessors for the verification harness (build tag verif). They expose the
 // unexported frame codec; nothing here mutates package state.
 
@@ -54,3 +61,70 @@ func VerifInitFrameFromBytes(b []byte) VerifInitFrame {
 	return VerifInitFrame{FrameNo: p.frameNo, TubeID: p.tubeID, TubeType: p.tubeType, Data: p.data, DataLength: p.dataLength,
 		REQ: p.flags.REQ, RESP: p.flags.RESP, REL: p.flags.REL, ACK: p.flags.ACK, FIN: p.flags.FIN, RTR: p.flags.RTR}
 }
+
+// VerifReceiver drives the reassembly core (receiver) directly.
+type VerifReceiver struct{ r *receiver }
+
+// VerifNewReceiver returns a receiver expecting frame number start next.
+func VerifNewReceiver(start uint64) *VerifReceiver {
+	l := logrus.New()
+	l.SetOutput(io.Discard)
+	r := newReceiver(logrus.NewEntry(l))
+	r.m.Lock()
+	r.windowStart = start
+	r.ackNo = start
+	r.m.Unlock()
+	return &VerifReceiver{r}
+}
+
+// Receive feeds one frame to receiver.receive.
+func (v *VerifReceiver) Receive(frameNo uint32, data []byte, fin, ack bool) (bool, error) {
+	return v.r.receive(&frame{frameNo: frameNo, data: data, dataLength: uint16(len(data)), flags: frameFlags{FIN: fin, ACK: ack}})
+}
+
+// Buffered returns a copy of the assembled, not yet read bytes.
+func (v *VerifReceiver) Buffered() []byte {
+	v.r.m.Lock()
+	defer v.r.m.Unlock()
+	return append([]byte(nil), v.r.buffer.Bytes()...)
+}
+
+// Closed reports whether the receiver processed a FIN (or was closed).
+func (v *VerifReceiver) Closed() bool { return v.r.closed.Load() }
+
+// Ack returns the next expected frame number (32 bits).
+func (v *VerifReceiver) Ack() uint32 { return v.r.getAck() }
+
+// VerifReliableInfo is a snapshot of a reliable tube for diagnostics.
+type VerifReliableInfo struct {
+	State          int32
+	UnackedFrames  int
+	RTO, RTT       time.Duration
+	WindowSize     uint16
+	FinSent        bool
+	SenderClosed   bool
+	ReceiverClosed bool
+	DupAcks        int
+}
+
+// VerifInfo returns a snapshot of the tube.
+func (r *Reliable) VerifInfo() VerifReliableInfo {
+	r.l.Lock()
+	defer r.l.Unlock()
+	r.sender.m.Lock()
+	defer r.sender.m.Unlock()
+	return VerifReliableInfo{
+		State:          int32(r.tubeState),
+		UnackedFrames:  len(r.sender.frames),
+		RTO:            r.sender.RTO,
+		RTT:            r.sender.RTT,
+		WindowSize:     r.sender.senderWindow.windowSize,
+		FinSent:        r.sender.finSent,
+		SenderClosed:   r.sender.closed.Load(),
+		ReceiverClosed: r.recvWindow.closed.Load(),
+		DupAcks:        r.sender.senderWindow.duplicatedAckCounter,
+	}
+}
+
+// VerifState returns the lifecycle state of an unreliable tube.
+func (u *Unreliable) VerifState() int32 { return int32(u.state.Load().(state)) }
